@@ -88,17 +88,23 @@ def function_program(n, nest, call, wrap=None):
             'needs': (['x'] if wrap and name == 'eval_body_local' else list(call[3]) if len(call) > 3 else []), 'wrap': wrap}
 
 
-def method_program(n, nest, call, decorator=None):
+def method_program(n, nest, call, levels=2):
+    """`levels=3`: the method using super() is defined in Mid(Base), not overridden in Leaf(Mid), and called
+    on a Leaf instance - so `type(self)` is not the class the method was defined in."""
     name, expr = call[0], call[1].replace('{n}', str(n))
-    lines = ['class Base_%d:' % n, "    tag = 'base-tag'", '    def m(self, x):', "        return ('base', x)",
+    lines = ['class Base_%d:' % n, "    tag = 'base-tag'", '    def m(self, x, b=0):', "        return ('parent=base', x)",
              'class Der_%d(Base_%d):' % (n, n), "    tag = 'der-tag'", '    def m(self, a, b=3):', '        u = a + 10', '        out = []']
     o, ind = _open(nest)
     lines += ['    ' + l for l in o]
     lines.append('    ' + ind + 'x = u')
     lines.append('    ' + ind + 'out.append(%s)' % expr)
-    lines.append('        return out')
+    lines.append("        return ('parent=der', out)")
+    inst = None
+    if levels == 3:
+        lines += ['class Leaf_%d(Der_%d):' % (n, n), "    tag = 'leaf-tag'", '    def other(self):', '        return 0']
+        inst = 'Leaf_%d' % n
     return {'name': 'Der_%d.m' % n, 'kind': 'super', 'call': name, 'nest': list(nest), 'src': '\n'.join(lines) + '\n',
-            'entry': 'm', 'cls': 'Der_%d' % n, 'args': [[1], [2, 9]], 'extra': None, 'needs': []}
+            'entry': 'm', 'cls': 'Der_%d' % n, 'inst': inst, 'args': [[1], [2, 9]], 'extra': None, 'needs': []}
 
 
 # dynamic reads placed AFTER a functionalised block that assigns x; `live` adds a static read of x after the block
@@ -152,8 +158,13 @@ def frame_programs(tier, rng):
         off = rng.randrange(k)
         deep = deep[off::k]
     for ne, (kind, c) in shallow + deep:
-        progs.append(function_program(n, ne, c) if kind == 'f' else method_program(n, ne, c))
-        n += 1
+        if kind == 'f':
+            progs.append(function_program(n, ne, c))
+            n += 1
+        else:
+            for levels in (2, 3):
+                progs.append(method_program(n, ne, c, levels=levels))
+                n += 1
     # the same calls as operands of a conditional expression / and / or (functionalised as lambdas)
     fcalls = [c for c in EVAL_CALLS + LOCALS_CALLS + GLOBALS_CALLS]
     wrapped = [(ne, c, w) for ne in nests if len(ne) <= 1 for c in fcalls for w in sorted(WRAPS)]
